@@ -15,6 +15,14 @@ NA = {
 }
 
 CHECKS = {
+ "C11": dict(level="fault_enumeration", design="§5 C11",
+   text="Crash-and-restart histories on one interpreter: victims end by running out, dying of an uncaught (planted) error at arbitrary depth, being abandoned after s steps, or being left suspended; restart = next prepare(). Quick tier samples crash points; the thorough tier enumerates EVERY step index of victims with T<=400 steps (larger ones sampled). Oracle: a fixed battery and a generated observer behave exactly as on a fresh interpreter (outcome, console, traffic with renumbered order ids, exports), call depth 0, H4 quiescence tuple equal.",
+   note="Trusted: harness; victims are generated free of deliberate global effects (block- or module-scoped). Crash-point enumeration is complete per victim only in the thorough tier and only for victims of at most 400 steps; victims themselves are sampled.",
+   technique="deterministic simulation: crash-point enumeration (abandon/kill at every step) + restart vs fresh-instance reference"),
+ "C14": dict(level="exploration", design="§5 C14",
+   text="Conservation check over seeded histories: the same self-contained program run 6-12 times on one interpreter (completing or failing) with a collection after each, and loops inside one run where the simulated host forces a collection at every suspension and records the live-object count; strict growth over the last four observations is a violation. Two recorded findings (break/continue and generator scope guards) are quarantined from the inside-run generator and replayed as witnesses.",
+   note="Trusted: harness, gc_stats().live_objects. Lazily filled caches that stabilise are not alarmed. Module-mode programs are excluded (module environments are rooted forever by design).",
+   technique="deterministic simulation: repeated-run histories with host-forced collections, conservation oracle"),
  "C02": dict(level="exploration", design="§5 C02",
    text="Seeded search over (generated program, host tape) x 4-8 collection schedules (thresholds, collections injected at arbitrary allocations through the H2 seam, bursts, host-forced collect() between steps and at suspensions); every perturbed run must reproduce the outcome, console, host traffic and exports of the collection-off run, with an empty stale-dereference log (H1). Sampling, not enumeration.",
    note="Trusted: harness (progGen, simulated host, comparison), hooks H1/H2 (add-only, cfg tsrun_verif). Programs are tsrun-vs-tsrun, so ECMAScript conformance is not assumed.",
